@@ -135,6 +135,31 @@ def rewrite_source(rel, subs):
     return path, counts
 
 
+def instrument_sources(rels):
+    """Gate-instrumented copies of REPO/<rel> (built from the current working tree) plus the gate
+    runtime, as overlay entries. Returns (mapping, labels per file)."""
+    instbin = os.path.join(GEN, "bin", "verifinst")
+    src = os.path.join(HARNESS, "inst")
+    if not os.path.exists(instbin) or os.path.getmtime(instbin) < os.path.getmtime(os.path.join(src, "main.go")):
+        os.makedirs(os.path.dirname(instbin), exist_ok=True)
+        rc, out, _ = sh(["go", "build", "-o", instbin, "."], cwd=src, env=GOENV, timeout=300)
+        if rc != 0:
+            raise RuntimeError("verifinst does not build: " + out)
+    outd = os.path.join(GEN, "inst")
+    os.makedirs(outd, exist_ok=True)
+    rc, out, _ = sh([instbin, outd, REPO] + list(rels), timeout=120)
+    if rc != 0:
+        raise RuntimeError("verifinst failed: " + out)
+    labels = {}
+    for line in out.splitlines():
+        if "\t" in line:
+            f, l = line.split("\t", 1)
+            labels.setdefault(f, []).append(l)
+    mapping = {rel: os.path.join(outd, rel.replace("/", "__")) for rel in rels}
+    mapping["internal/verifrt/rt.go"] = os.path.join(HARNESS, "rt", "rt.go")
+    return mapping, labels
+
+
 def overlay_for(files, helper_pkgs):
     """files: {repo-relative dest path: absolute source path}; helper_pkgs: {repo dir: package name}
     -> path of an overlay JSON. Nothing is written to the repository."""
